@@ -64,7 +64,10 @@ namespace igris
 
         template <class T> T deserialize()
         {
-            T obj;
+            // value-initialised: what a truncated input does not supply must
+            // not come from uninitialised memory (a garbage list length would
+            // make the caller loop up to 65535 times per nesting level)
+            T obj{};
             deserialize(obj);
             return obj;
         }
